@@ -497,7 +497,7 @@ func (o Outcome) Code() int {
 // before the run counts as "memory far beyond the input size".
 func AllocLimit(n int) uint64 { return 4<<20 + 4096*uint64(n) }
 
-var Timeout = 20 * time.Second
+var Timeout = 10 * time.Second
 
 // Run calls f under recover, a watchdog and an allocation meter.  inputLen is
 // the size of the attacker-controlled input f works on.
